@@ -17,7 +17,9 @@ EXTRA_TRUST = ["C05 only: the per-pair theorems are closed by native_decide (eva
 RULE = ("a case = one (source, reference .ink.json) pair of the conformance corpus: the source is compiled with the "
         "current compiler and both documents are explored along EVERY choice path down to the depth bound (12; 6 "
         "for stories that loop for ever; 6 for The Intercept, 8 in the thorough tier), on the real runtime (save/load at every choice "
-        "point) and on the model; non-trivial when the story offers at least one choice; distinct by file")
+        "point) and on the model; for the pairs this cannot finish (The Intercept, stories that loop) also random "
+        "playthroughs of both documents in lockstep to the end (24 / 400 for The Intercept); non-trivial when the "
+        "story offers at least one choice; distinct by file / by choice path")
 ASSUMPTIONS = ["both stories run on the same runtime with seed 1",
                "the three shuffle stories are compared with the text of their lines blanked (modulo the shuffle)",
                "final values are compared for the globals both documents declare"]
